@@ -45,7 +45,7 @@ CHECKS.update({
  "C15": other("Single-character edits of sentences, random text, unbalanced and very deep nesting: only FilterSyntaxError with in-range offset/length, accepted filters have valid attributes and re-parse from their own text; two known findings pinned by tests.", "mutation testing of the parser + totality/bounds/validity oracle + model/implementation correspondence (totality theorem pending)"),
  "C16": other("Valid schema descriptions of the three kinds are printed and re-parsed; the text is also parsed by an independent RFC 4512 reference parser.", "print/parse round-trip oracle + reference parser + model/implementation correspondence (qdstring round-trip theorem pending)"),
  "C17": other("Sentences of the three RFC 4512 grammars with all spacing / list-form / escape-case choices, plus mutated strings for the totality clause.", "grammar-sentence generation + reference parser + model/implementation correspondence"),
- "C18": other("Adversarial input families for every parser and for receive are timed at doubling sizes (absolute and growth thresholds); the regular expressions are regenerated from the source on every run.", "CPU-time growth measurement on adversarial families (polynomial path-count certificate theorem pending)"),
+ "C18": other("Adversarial input families for every parser and for receive are timed at doubling sizes (absolute and growth thresholds); the regular expressions are regenerated from the source on every run.", "CPU-time growth measurement on adversarial families (no theorem: a cost semantics for the backtracking matcher and an ambiguity certificate were not built)"),
  "C19": other("Pairs of session histories run interleaved and alone must give identical transcripts; custom control / filter / credential registration is exercised with distinct type sets per session.", "interleaved-vs-isolated transcript comparison + registration oracle + two independent model instances"),
 })
 
